@@ -50,12 +50,12 @@ def obs_place(e, step, mx, spec):
     """the placeholder texts of the frame displayed e ticks after start() at step `step`"""
     from clikit.ui.components import ProgressBar
 
-    out = {"exc": "", "elapsed": [], "remaining": [], "estimated": [], "percent": []}
+    out = {"exc": "", "elapsed": [], "remaining": [], "estimated": [], "percent": [], "unknown1": [], "unknown2": [], "getter": [0, 1]}
     with _Env() as env:
         try:
             bar = ProgressBar(env.out, mx, 0)
             bar.set_format("%current%/%max%" + SEP + SEP.join("%" + n + _suffix(s) + "%" for n, s in
-                           zip(("elapsed", "remaining", "estimated", "percent"), spec)) + SEP)
+                           zip(("elapsed", "remaining", "estimated", "percent"), spec)) + SEP + "%nosuch%" + SEP + "%nosuch:4s%" + SEP)
             bar.start()
             env.clock.ticks += e
             bar.set_progress(step)
@@ -63,8 +63,12 @@ def obs_place(e, step, mx, spec):
             bar.display()
             text = c16._ESC.sub("", "".join(env.stream.chunks[mark:]))
             parts = text.split(SEP)
-            for k, name in enumerate(("elapsed", "remaining", "estimated", "percent")):
+            for k, name in enumerate(("elapsed", "remaining", "estimated", "percent", "unknown1", "unknown2")):
                 out[name] = list(parts[k + 1]) if len(parts) > k + 1 else ["?"]
+            from fractions import Fraction
+
+            fr = Fraction(bar.get_progress_percent()).limit_denominator(100000)
+            out["getter"] = [fr.numerator, fr.denominator]
         except Exception as ex:  # noqa
             out["exc"] = type(ex).__name__
     return out
@@ -163,6 +167,9 @@ def run_ext(ctx):
         step = 0 if i["max"] == 0 else i["step"]
         o = obs_place(i["e"], step, i["max"], i["spec"])
         same = o["exc"] == m["exc"] and all(o[k] == list(m[k]) for k in ("elapsed", "remaining", "estimated", "percent"))
+        if same and not o["exc"]:  # the two clauses TLC does not print an answer for: judged by BarExtTrace
+            same = "".join(o["unknown1"]) == "%nosuch%" and "".join(o["unknown2"]) == "%nosuch:4s%" and \
+                o["getter"][0] * i["max"] == o["getter"][1] * step
         return ev_place(i["e"], step, i["max"], i["spec"], o), same
 
     def h_redraw(rec):
